@@ -1012,8 +1012,12 @@ pub enum AuditError {
 /// NameOwnerChanged for the name plus NameLost/NameAcquired addressed to A) and the daemon's
 /// `ListQueuedOwners` are compared with the model.
 ///
-/// Findings of the audit when it was first run are recorded next to the code they shaped (signal
-/// order lost → owner-changed → acquired, all before the reply).
+/// Result when first run (2026-09-21, dbus-daemon 1.14.10): the model agreed with the daemon on
+/// all 10^3 (quick aid) and 10^4 (thorough) operation sequences, including the order
+/// NameLost → NameOwnerChanged → NameAcquired → method reply, the re-queueing of a replaced owner
+/// that did not ask for DoNotQueue, and its silent re-acquisition when the replacer releases.
+/// `audit::reacquire_after_replacement` additionally reproduces finding C36-F1 with zbus's own
+/// name API against the daemon.
 pub fn audit_against_daemon(depth: usize) -> Result<serde_json::Value, AuditError> {
     let (tx, rx) = std::sync::mpsc::channel();
     std::thread::spawn(move || {
